@@ -51,10 +51,11 @@ PendingInv(q) == Len(q) + Cardinality({i \in 1 .. Len(q) : Len(q[i].inv) = 2})
 Posted(o) == ninv[o] + PendingInv(opq[o])
 TraceK(o, m) ==
   LET hs == cx.ops[o]
-      i == Posted(o) + 1 IN
+      i == IF op[o].conv THEN 1 ELSE Posted(o) + 1 IN    \* convenience: the one CH record
   IF i > Len(hs) THEN {}
   ELSE LET need == IF op[o].dir = "R"
-                   THEN hs[i].n - (Size(op[o].data) + op[o].buflen)
+                   THEN IF op[o].conv THEN hs[i].n - op[o].total
+                        ELSE hs[i].n - (Size(op[o].data) + op[o].buflen)
                    ELSE (op[o].len - hs[i].n) - op[o].total
        IN IF need >= 1 /\ m >= 1 THEN {Min(need, m)} ELSE {}
 
@@ -63,15 +64,20 @@ KinOf(r) == IF r.kind = "filein" THEN [wpos |-> r.insize, rpos |-> 0, closed |->
             ELSE [wpos |-> 0, rpos |-> 0, closed |-> FALSE]
 TReset ==
   /\ Ev("Reset") /\ l' = l + 1 /\ cxi' = l /\ stopping' = FALSE
-  /\ l = 2 \/ (Quiescent /\ clq = "ran" /\ ~stopping)
+  /\ l = 2 \/ (Quiescent /\ ~stopping /\ IF mode = "chan" THEN clq = "ran" ELSE \A o \in Ops : cuser[o] \in {"none", "ran"})
+  /\ mode' = (IF Rcd.kind \in {"convin", "convout", "convsock"} THEN "conv" ELSE "chan")
+  /\ cacc' = [o \in Ops |-> <<>>] /\ cerr' = [o \in Ops |-> 0]
+  /\ cuser' = [o \in Ops |-> "none"] /\ cres' = [o \in Ops |-> NoRes]
   /\ cstate' = "run" /\ nops' = 0 /\ nbars' = 0 /\ nsetl' = 0 /\ nseth' = 0
   /\ closeCall' = FALSE /\ stopCall' = FALSE /\ released' = FALSE /\ wsub' = 0
-  /\ flags' = {} /\ clow' = Chunk /\ chigh' = INF /\ chFd' = TRUE
+  /\ flags' = {} /\ clow' = Chunk /\ chigh' = INF
+  /\ chFd' = (Rcd.kind \notin {"convin", "convout", "convsock"})
   /\ chq' = <<>> /\ bq' = <<>> /\ bqSusp' = 0
   /\ sq' = [d \in Dirs |-> <<>>] /\ pend' = [d \in Dirs |-> NoPend]
   /\ sops' = [d \in Dirs |-> <<>>] /\ cur' = [d \in Dirs |-> 0] /\ srcRun' = [d \in Dirs |-> FALSE]
   /\ op' = [o \in Ops |-> NoneOp] /\ opq' = [o \in Ops |-> <<>>]
-  /\ grp' = 0 /\ fdref' = 1 /\ dord' = [d \in Dirs |-> <<>>]
+  /\ grp' = 0 /\ fdref' = (IF Rcd.kind \in {"convin", "convout", "convsock"} THEN 0 ELSE 1)
+  /\ dord' = [d \in Dirs |-> <<>>]
   /\ bars' = [b \in Bars |-> [st |-> "none", before |-> 0]]
   /\ clq' = "held" /\ cleanupRuns' = 0
   /\ kin' = KinOf(Rcd)
@@ -89,6 +95,15 @@ TSetLow == Ev("SetLow") /\ Consume /\ CSetLow(Rcd.v)
 TSetHigh == Ev("SetHigh") /\ Consume /\ CSetHigh(Rcd.v)
 TRead == Ev("Read") /\ Consume /\ CSubmit(Rcd.o, "R", Rcd.len, <<>>)
 TWrite == Ev("Write") /\ Consume /\ Rcd.off = wsub /\ CSubmit(Rcd.o, "W", Rcd.len, Regs(Rcd.off, Rcd.frag))
+TCRead == Ev("CRead") /\ Consume /\ CConv(Rcd.o, "R", Rcd.len, <<>>)
+TCWrite == Ev("CWrite") /\ Consume /\ Rcd.off = wsub /\ CConv(Rcd.o, "W", Rcd.len, Regs(Rcd.off, Rcd.frag))
+\* the handler of dispatch_read / dispatch_write
+TCH ==
+  /\ Ev("CH") /\ Consume /\ ConvRun(Rcd.o)
+  /\ ErrClass(cerr[Rcd.o]) = Rcd.err
+  /\ Size(cacc[Rcd.o]) = Rcd.n
+  /\ Rcd.n > 0 => SameBytes(cacc[Rcd.o], << <<Rcd.off, Rcd.n>> >>)
+  /\ op[Rcd.o].dir = "W" => ((Rcd.null = 1) = (cacc[Rcd.o] = <<>>))
 TBarrier == Ev("Barrier") /\ Consume /\ CBarrier(Rcd.b)
 TClose == Ev("Close") /\ Consume /\ CClose
 TRelease == Ev("Release") /\ Consume /\ CRelease
@@ -126,7 +141,7 @@ TPeerUnwrite ==   \* the (atomic) write of that piece did not take place
   /\ Ev("PeerUnwrite") /\ Consume
   /\ kin.wpos - Rcd.k >= kin.rpos
   /\ kin' = [kin EXCEPT !.wpos = @ - Rcd.k]
-  /\ UNCHANGED <<cvars, chvars, chq, bq, bqSusp, stvars, libvars, bars, clvars, kout, hvars, gvars, sched>>
+  /\ UNCHANGED <<cvars, chvars, chq, bq, bqSusp, stvars, libvars, bars, clvars, kout, hvars, gvars, convvars, sched>>
 TPeerClose == Ev("PeerClose") /\ Consume /\ PeerClose
 TPeerRead == Ev("PeerRead") /\ Consume /\ PeerRead(Rcd.k)
 TPeerHup == Ev("PeerHup") /\ Consume /\ PeerHup
@@ -137,12 +152,13 @@ TSilent ==
   /\ \/ ChqStep \/ BqStep
      \/ \E d \in Dirs : SqSenq(d) \/ SqCleanup(d) \/ SqPerform(d, TraceK) \/ SqFinish(d) \/ SourceFire(d)
      \/ CloseQRun \/ ChannelDispose
+     \/ \E o \in Ops : op[o].conv /\ HandlerRun(o)      \* the internal handler of a convenience call
 
 \* depth-first search explores the LAST disjunct's successors first: consuming a record is
 \* preferred to running the library ahead
 TNext == \/ TSilent
          \/ TReset
-         \/ TSetLow \/ TSetHigh \/ TRead \/ TWrite \/ TBarrier \/ TClose \/ TRelease
+         \/ TSetLow \/ TSetHigh \/ TRead \/ TWrite \/ TCRead \/ TCWrite \/ TCH \/ TBarrier \/ TClose \/ TRelease
          \/ TStopCall \/ TStopEffect \/ TStopRet
          \/ TH \/ THEnd \/ TBarStart \/ TBarEnd \/ TCleanup \/ TExecEnd
          \/ TPeerWrite \/ TPeerUnwrite \/ TPeerClose \/ TPeerRead \/ TPeerHup
